@@ -116,7 +116,9 @@ class ConcHarness:
        options: pt=<pool timeout>, v (may be cancelled), late (arrives by an environment event)"""
 
     def __init__(self, ct, callers, max_connections=1, max_keepalive=None, faults=0, cancels=0, styles=("scope",),
-                 early=True, framing="cl", h2cfg=None, horizon=600, keepalive_expiry=None, fault_set="one", h2script=None, probe=True, tick=0):
+                 early=True, framing="cl", h2cfg=None, horizon=600, keepalive_expiry=None, fault_set="one", h2script=None, probe=True, tick=0, connect_status=200, idle_close=0):
+        self.connect_status = connect_status
+        self.idle_close = idle_close        # budget of "server closes an idle HTTP/1.1 connection" events
         self.h2script = h2script
         self.probe = probe
         self.tick = tick            # virtual seconds that pass between the warm-up callers and the others
@@ -139,7 +141,7 @@ class ConcHarness:
         h2cfg = dict(self.h2cfg)
         if self.h2script is not None:
             h2cfg.setdefault("respond", "manual")
-        topo = scen.Topology(scen.CONN_TYPES[ct], framing=self.framing, h2cfg=h2cfg)
+        topo = scen.Topology(scen.CONN_TYPES[ct], framing=self.framing, h2cfg=h2cfg, connect_status=self.connect_status)
         kinds = None
         if self.fault_set == "one":
             kinds = {"connect": ["ConnectError"], "start_tls": ["ConnectError"], "read": ["ReadError"], "write": ["WriteError"]}
@@ -155,10 +157,28 @@ class ConcHarness:
         pool = scen.make_pool(ct, w.backend, "async", max_connections=self.max_connections,
                               max_keepalive_connections=self.max_keepalive, keepalive_expiry=self.keepalive_expiry)
         w.roots.append(pool)
+        script = None
         if self.h2script is not None:
             script = H2Script(topo, self.h2script)
             w.roots.append(script)
-            w.server_events = script.events
+        idle_budget = [self.idle_close]
+        w.roots.append(idle_budget)
+
+        def server_events():
+            evs = script.events() if script is not None else []
+            if idle_budget[0] > 0:
+                for hc in topo.all_h1_conns():
+                    tr = hc.tr
+                    p_ = hc.parser
+                    idle_now = tr is not None and not tr.closed and not tr.peer_eof and p_.cur is None and p_.requests and hc.responses_sent == len(p_.requests) and not tr.inbound
+                    if idle_now:
+                        def drop(tr=tr):
+                            idle_budget[0] -= 1
+                            tr.shutdown()
+                        evs.append((f"idleclose@{tr.host}", drop))
+            return evs
+        if script is not None or self.idle_close:
+            w.server_events = server_events
         ever_pooled: list = []
         c04 = {"max_list": 0, "max_open": 0}
         N = self.max_connections
@@ -174,6 +194,10 @@ class ConcHarness:
             for e in ever_pooled:
                 if not any(e is c for c in conns):
                     evicted_tr |= reachable_transports(e)
+            if not world.loop.live_ready() and not world.net.pending:
+                # "apart from connections it has already evicted and is CLOSING": by quiescence the closing is over,
+                # so a stream of an evicted connection that is still open then counts like any other
+                evicted_tr = set()
             open_tr = [t for t in world.net.open_transports() if t.id not in evicted_tr and not getattr(t, "backend_cleaned", False)]
             inflight = sum(1 for op in world.net.pending if op.kind.startswith("connect"))
             c04["max_list"] = max(c04["max_list"], len(conns))
@@ -410,6 +434,7 @@ class ConcHarness:
             kind, info = w.deadlock
             # root-cause fact for the known SETTINGS wedge: a caller is blocked inside _receive_remote_settings_change
             base["settings_lowered"] = isinstance(info, list) and any("_receive_remote_settings_change" in b[1] for b in info)
+            base["settings_zero"] = any(e.startswith("srv:settings0@") for e in w.events_log)
             # flow control: an upload blocked although, by the peer's books, its stream and connection windows are open
             starved_ok = False
             for hc in topo.all_h2_conns():
@@ -486,7 +511,9 @@ class ConcHarness:
         if pr[0] != "ok":
             viol("C05", "probe-" + pr[0], f"capacity probe did not terminate normally: {pr}; pool after callers: {after['conns']}")
         else:
-            bad = [p for p in pr[1] if p[0] != "ok"]
+            # a proxy that refuses every CONNECT refuses the probe's requests too: that is not lost capacity
+            refused_ok = not (200 <= self.connect_status <= 299)
+            bad = [p for p in pr[1] if p[0] != "ok" and not (refused_ok and isinstance(p[1], httpcore.ProxyError))]
             if bad:
                 viol("C05", "capacity-lost", f"probe of {self.max_connections} fresh origins failed: {[exc_class(p[1]) for p in bad]}; pool after callers: {after['conns']}",
                      probe_exc=exc_class(bad[0][1]))
@@ -570,6 +597,14 @@ def scenarios(pid, tier):
                 if not quick:
                     out.append(S(ct, ["req:a:w", "req:a", "req:a", "req:a"], max_connections=1, h2script={"frag": 1}, early=False))
                     out.append(S(ct, ["req:a:w", "early:a", "req:a"], max_connections=1, h2script={"frag": 2}, early=False))
+        if pid == "C04":
+            out.append(S("h11", ["req:a:w", "post:b", "req:c:late"], max_connections=2, faults=1, idle_close=1, early=False))
+            for ct in (["h2pk"] if quick else ["h2pk", "h2alpn"]):
+                out.append(S(ct, ["req:a:w", "req:a", "req:b"], max_connections=1, h2script={"rst": 1}, early=False))
+                # graceful GOAWAY while a response is held open, new request in that window
+                out.append(S(ct, ["hold:a", "req:a:late"], max_connections=1, h2script={"goaway": [1]}, early=False))
+                if not quick:
+                    out.append(S(ct, ["req:a:w", "hold:a", "req:a:late", "req:b:late"], max_connections=1, h2script={"goaway": [3]}, early=False))
         if pid in ("C04", "C07"):
             out.append(S("socks-h2", ["req:a", "req:a"], max_connections=1, early=False))
             out.append(S("socks-h2", ["req:a", "req:a", "req:b"], max_connections=1, early=False))
@@ -591,6 +626,17 @@ def scenarios(pid, tier):
             # history: idle connections that expire together are retired in one pass while the victim is cancelled
             out.append(S(ct, ["req:a:w", "req:b:w", "req:c:v"], max_connections=3, keepalive_expiry=5.0, tick=6.0, cancels=1, styles=["scope", "native"]))
             out.append(S(ct, ["req:a:w", "req:b"], max_connections=2, keepalive_expiry=5.0, tick=6.0))
+            if scen.CONN_TYPES[ct]["proxy"] in ("http", "https") and scen.CONN_TYPES[ct]["scheme"] == "https":
+                # proxy refuses the CONNECT: the tunnel connection closes the proxy connection itself
+                out.append(S(ct, ["req:a:v"], max_connections=1, cancels=1, styles=["scope", "native"], connect_status=403))
+                out.append(S(ct, ["req:a", "req:b"], max_connections=1, connect_status=403))
+            if scen.CONN_TYPES[ct]["proto"] == "h1":
+                # the server drops an idle keep-alive connection while another request is in flight and then fails:
+                # the retiring pass runs on the failing request's exit path
+                out.append(S(ct, ["req:a:w", "post:b"], max_connections=2, faults=1, idle_close=1, early=False))
+            else:
+                # a single stream is reset; the idle HTTP/2 connection is evicted for the queued other-origin request on the exit path
+                out.append(S(ct, ["req:a:w", "req:a", "req:b"], max_connections=1, h2script={"rst": 1}, early=False))
             if not quick:
                 out.append(S(ct, ["early:a:v", "req:a"], max_connections=1, cancels=1, styles=["scope", "native"]))
                 out.append(S(ct, ["hold:a:v", "req:b"], max_connections=1, cancels=1, styles=["scope", "native"]))
@@ -613,6 +659,7 @@ def scenarios(pid, tier):
             out.append(S(ct, [W, "req:a", "req:a"], max_connections=1, h2cfg={"max_streams": 2}, h2script={"settings": [1]}, early=False))
             out.append(S(ct, [W, "req:a", "req:a", "req:a"], max_connections=1, h2cfg={"max_streams": 1}, h2script={"settings": [3]}, early=False))
             out.append(S(ct, [W, "req:a", "req:a"], max_connections=1, h2cfg={"max_streams": 2}, h2script={"settings": [1, 2]}, early=False))
+            out.append(S(ct, [W, "req:a", "req:a"], max_connections=1, h2cfg={"max_streams": 2}, h2script={"settings": [0]}, early=False))
             if not quick:
                 out.append(S(ct, [W, "req:a", "req:a", "req:a"], max_connections=1, h2cfg={"max_streams": 3}, h2script={"settings": [1]}, early=False))
                 out.append(S(ct, [W, "req:a", "req:a", "req:a"], max_connections=1, h2cfg={"max_streams": 3}, h2script={"settings": [2]}, early=False))
